@@ -406,9 +406,8 @@ tp_task_stop(tp_task_p tptask) {
 	if (NULL == tptask)
 		return;
 	tpt_ev_del_args1(tptask->event, &tptask->tp_data);
-	if (0 != tptask->timeout) {
-		tpt_ev_del_args1(TP_EV_TIMER, &tptask->tp_timer);
-	}
+	/* Allways: timeout may be changed after the timer was armed. */
+	tpt_ev_del_args1(TP_EV_TIMER, &tptask->tp_timer);
 }
 
 
@@ -425,7 +424,8 @@ tp_task_enable(tp_task_p tptask, int enable) {
 		if (0 != error)
 			return (error);
 	}
-	error = tpt_ev_enable_args1(enable, tptask->event, &tptask->tp_data);
+	error = tpt_ev_enable_args(enable, tptask->event,
+	    tptask->event_flags, 0, 0, &tptask->tp_data);
 	if (0 != error) {
 		debugd_break();
 		tpt_ev_enable_args1(0, TP_EV_TIMER, &tptask->tp_timer);
@@ -445,7 +445,8 @@ tp_task_handler_pre_int(tp_event_p ev, tp_udata_p tp_udata,
 		if (0 != (TP_F_ONESHOT & (*tptask)->event_flags)) {
 			tp_task_stop((*tptask));
 		} else {
-			tpt_ev_enable_args1(0, (*tptask)->event,
+			tpt_ev_enable_args(0, (*tptask)->event,
+			    (*tptask)->event_flags, 0, 0,
 			    &(*tptask)->tp_data);
 		}
 		(*data2transfer_size) = 0;
@@ -473,12 +474,14 @@ tp_task_handler_post_int(tp_event_p ev, tp_task_p tptask, int cb_ret) {
 		return;
 	/* tp_task_enable() */
 	if (0 != tptask->timeout) {
-		tpt_ev_q_enable_args(1, TP_EV_TIMER, TP_F_DISPATCH,
+		/* Not ...q_enable...: timer may be not created yet. */
+		tpt_ev_add_args(tptask->tpt, TP_EV_TIMER, TP_F_DISPATCH,
 		    TP_FF_T_MSEC, tptask->timeout, &tptask->tp_timer);
 	}
 	if (0 != (tptask->event_flags & TP_F_DISPATCH) ||
 	    TP_EV_TIMER == ev->event) {
-		tpt_ev_q_enable_args1(1, tptask->event, &tptask->tp_data);
+		tpt_ev_q_enable_args(1, tptask->event,
+		    tptask->event_flags, 0, 0, &tptask->tp_data);
 	}
 }
 
@@ -490,7 +493,7 @@ tp_task_handler(int type, tp_event_p ev, tp_udata_p tp_udata,
 	uintptr_t ident;
 	ssize_t ios;
 	size_t data2transfer_size, transfered_size = 0;
-	int error, cb_ret;
+	int error, cb_ret, ev_error = 0;
 	uint32_t eof;
 
 	debugd_break_if(NULL == ev);
@@ -504,6 +507,7 @@ tp_task_handler(int type, tp_event_p ev, tp_udata_p tp_udata,
 	} else {
 		error = tp_task_handler_pre_int(ev, tp_udata, &tptask,
 		    &eof, &data2transfer_size);
+		ev_error = error; /* SO_ERROR is cleared now: do not lost it. */
 		/* Ignory error if we can transfer data. */
 		if (0 == data2transfer_size ||
 		    NULL == tptask->buf ||
@@ -524,6 +528,11 @@ tp_task_handler(int type, tp_event_p ev, tp_udata_p tp_udata,
 				    IO_BUF_OFFSET_GET(tptask->buf),
 				    IO_BUF_TR_SIZE_GET(tptask->buf),
 				    tptask->offset);
+				if (-1 == ios && ESPIPE == errno) { /* pipe, fifo, tty, socket. */
+					ios = read((int)ident,
+					    IO_BUF_OFFSET_GET(tptask->buf),
+					    IO_BUF_TR_SIZE_GET(tptask->buf));
+				}
 			} else { /* TP_TASK_H_TYPE_SR */
 				ios = recv((int)ident,
 				    IO_BUF_OFFSET_GET(tptask->buf),
@@ -572,6 +581,11 @@ tp_task_handler(int type, tp_event_p ev, tp_udata_p tp_udata,
 				    IO_BUF_OFFSET_GET(tptask->buf),
 				    IO_BUF_TR_SIZE_GET(tptask->buf),
 				    tptask->offset);
+				if (-1 == ios && ESPIPE == errno) { /* pipe, fifo, tty, socket. */
+					ios = write((int)ident,
+					    IO_BUF_OFFSET_GET(tptask->buf),
+					    IO_BUF_TR_SIZE_GET(tptask->buf));
+				}
 			} else { /* TP_TASK_H_TYPE_SR */
 				ios = send((int)ident,
 				    IO_BUF_OFFSET_GET(tptask->buf),
@@ -607,6 +621,9 @@ err_out: /* Error. */
 		error = EINVAL;
 	}
 	error = SKT_ERR_FILTER(error);
+	if (0 == error) { /* Nothing transfered: report the event error. */
+		error = ev_error;
+	}
 	if (0 == error) {
 		tptask->tot_transfered_size += transfered_size; /* Save transfered_size. */
 		cb_ret = TP_TASK_CB_CONTINUE;
@@ -1053,6 +1070,7 @@ connect_ex_start:
 static int
 tp_task_connect_ex_start(tp_task_p tptask, int do_connect) {
 	int error;
+	size_t addr_idx;
 	uint64_t time_limit_ms = 0, time_run_ms;
 	struct timespec	time_now;
 	tp_task_conn_prms_p conn_prms;
@@ -1112,9 +1130,11 @@ try_connect:
 	    SO_F_NONBLOCK, &tptask->tp_data.ident);
 	if (0 != error) /* Cant create socket. */
 		return (error);
+	addr_idx = tptask->tot_transfered_size; /* tp_task_start() reset it. */
 	error = tp_task_start(tptask, TP_EV_WRITE,
 	    TP_F_ONESHOT, tptask->timeout, tptask->offset,
 	    tptask->buf, tptask->cb_func);
+	tptask->tot_transfered_size = addr_idx;
 	if (0 != error) {
 		close((int)tptask->tp_data.ident);
 		tptask->tp_data.ident = (uintptr_t)-1;
